@@ -181,6 +181,32 @@ def _has_return(node):
     return False
 
 
+def _loop_escape(loop):
+    """(kind, line) of the first break / continue / return that belongs to this loop's body (nested loops keep their own
+    break/continue; nested defs keep their own return), or None"""
+    def walk(n, in_inner_loop):
+        for ch in ast.iter_child_nodes(n):
+            if isinstance(ch, (ast.FunctionDef, ast.AsyncFunctionDef, ast.Lambda, ast.ClassDef)):
+                continue
+            if isinstance(ch, ast.Return):
+                return ("return", ch.lineno)
+            if isinstance(ch, (ast.Break, ast.Continue)) and not in_inner_loop:
+                return ("break" if isinstance(ch, ast.Break) else "continue", ch.lineno)
+            r = walk(ch, in_inner_loop or isinstance(ch, (ast.For, ast.While, ast.AsyncFor)))
+            if r:
+                return r
+        return None
+    for st in loop.body:
+        if isinstance(st, ast.Return):
+            return ("return", st.lineno)
+        if isinstance(st, (ast.Break, ast.Continue)):
+            return ("break" if isinstance(st, ast.Break) else "continue", st.lineno)
+        r = walk(st, isinstance(st, (ast.For, ast.While, ast.AsyncFor)))
+        if r:
+            return r
+    return None
+
+
 def _is_raise_only(stmts):
     return len(stmts) >= 1 and isinstance(stmts[-1], ast.Raise) and all(isinstance(s, (ast.Raise, ast.Expr)) for s in stmts)
 
@@ -338,9 +364,25 @@ def grc_steps(base, fv):
         if isinstance(st, ast.For) and isinstance(st.iter, ast.Name) and st.iter.id == "fields" \
                 and isinstance(st.target, ast.Tuple) and len(st.target.elts) == 2 and all(isinstance(e, ast.Name) for e in st.target.elts):
             namevar = st.target.elts[1].id
-            for inner in st.body:
+            for k, inner in enumerate(st.body):
                 info = _guard_raises(inner, lambda n: _validator_call(n, fv.default_check))
                 if info and info[0] == namevar:
+                    # the model's step is "EVERY field name is checked": the loop must visit every field and reach the
+                    # check for each of them -- no break / continue / return / else, loop variable not rebound before
+                    # the check (fail closed otherwise)
+                    esc = _loop_escape(st)
+                    if esc is not None:
+                        raise Unsupported("_generate_record_class: the field-name validation loop has `%s` at line %d "
+                                          "(not every field is checked)" % esc)
+                    if st.orelse:
+                        raise Unsupported("_generate_record_class: the field-name validation loop has an else clause")
+                    for before in st.body[:k]:
+                        for n in ast.walk(before):
+                            if isinstance(n, ast.Name) and isinstance(n.ctx, ast.Store) and n.id == namevar:
+                                raise Unsupported("_generate_record_class: %s is rebound before it is checked" % namevar)
+                        if not isinstance(before, (ast.Expr, ast.Assign, ast.AnnAssign, ast.AugAssign, ast.Pass)):
+                            raise Unsupported("_generate_record_class: statement at line %d precedes the field-name check "
+                                              "inside the loop" % before.lineno)
                     if grc_check is not None and grc_check != info[1]:
                         raise Unsupported("_generate_record_class checks field names twice with different check_reserved")
                     grc_check = info[1]
